@@ -73,6 +73,65 @@ theorem validate_accepts_null_in_nonnullable_child :
     ∃ d, validateModel d = .ok ∧ tryNewRec d = .ok ∧ ¬ WellFormed d :=
   ⟨wNonNull, by decide, by decide, by decide⟩
 
+/-- **C09 for fixed-width leaf types (partial: Null, Boolean, primitives, FixedSizeBinary).**
+If `ArrayData::validate_data` (hence `try_new` / `validate_full`) accepts, the layout is
+well-formed. -/
+theorem validate_sound_fixed_partial {d : ArrayData} (h : validateData d = .ok) (hi : RustInv d)
+    (ht : d.type = .null ∨ d.type = .bool ∨ (∃ w, d.type = .prim w) ∨ (∃ n, d.type = .fsb n)) :
+    LocalWF d ∧ d.children = [] := by
+  obtain ⟨hh, hn⟩ := validate_head_of_data h
+  have hc : d.children = [] := by
+    unfold validateData at h; rw [andThen_ok] at h; exact validate_children_nil h.1 ht
+  refine ⟨?_, hc⟩
+  unfold LocalWF
+  refine ⟨nullsOk_of_validate hh hn hi, ?_⟩
+  obtain ⟨hlt, hnull, hlen, hbuf, _⟩ := validateHead_ok hh
+  rcases ht with ht | ht | ⟨w, ht⟩ | ⟨w, ht⟩ <;> rw [ht] at hnull hlen hbuf ⊢ <;> simp only [layout] at hnull hlen hbuf ⊢
+  · refine ⟨?_, ?_, hc⟩
+    · cases hx : d.nulls <;> simp_all
+    · simpa using hlen
+  · refine ⟨hc, ?_⟩
+    rcases hb : d.buffers with _ | ⟨b, _ | ⟨b2, r⟩⟩ <;> rw [hb] at hlen hbuf <;> simp at hlen
+    refine ⟨b, rfl, ?_⟩
+    have hb8 : (d.len + d.offset + 7) / 8 ≤ b.length := by
+      simp only [buffersOk, ceil8, Bool.and_true] at hbuf
+      exact of_decide_eq_true hbuf
+    omega
+  · refine ⟨hc, ?_⟩
+    rcases hb : d.buffers with _ | ⟨b, _ | ⟨b2, r⟩⟩ <;> rw [hb] at hlen hbuf <;> simp at hlen
+    refine ⟨b, rfl, ?_⟩
+    simp [buffersOk] at hbuf
+    have := satMul_le hbuf (hi.1 b (by simp [hb]))
+    rw [Nat.add_comm]; exact this
+  · refine ⟨hc, ?_⟩
+    rcases hb : d.buffers with _ | ⟨b, _ | ⟨b2, r⟩⟩ <;> rw [hb] at hlen hbuf <;> simp at hlen
+    refine ⟨b, rfl, ?_⟩
+    simp [buffersOk] at hbuf
+    have := satMul_le hbuf (hi.1 b (by simp [hb]))
+    rw [Nat.add_comm]; exact this
+
+
+/-- tree form: an accepted leaf array of a fixed-width type is `WellFormed`, hence (with
+`wellFormedB_iff`) the independent validator accepts it too. -/
+theorem validate_sound_fixed_tree_partial {d : ArrayData} (h : validateModel d = .ok) (hi : RustInv d)
+    (ht : d.type = .null ∨ d.type = .bool ∨ (∃ w, d.type = .prim w) ∨ (∃ n, d.type = .fsb n)) :
+    WellFormed d := by
+  cases d with
+  | mk t l o n bs cs =>
+  have hd : validateData ⟨t, l, o, n, bs, cs⟩ = .ok := by
+    unfold validateModel validateFull at h
+    rw [andThen_ok] at h
+    exact h.1
+  obtain ⟨hl, hc⟩ := validate_sound_fixed_partial hd hi ht
+  simp only at hc
+  subst hc
+  exact ⟨hl, trivial⟩
+
+example : validateModel (i32zeros 3) = .ok ∧ RustInv (i32zeros 3) := by
+  refine ⟨by decide, ?_, ?_⟩
+  · intro b hb; simp [i32zeros] at hb; subst hb; simp [USIZE]
+  · intro n hn; simp [i32zeros] at hn
+
 /-- the executable validator decides the specification predicate (restated for the audit) -/
 theorem wellFormedB_correct (d : ArrayData) : wellFormedB d = true ↔ WellFormed d :=
   wellFormedB_iff d
